@@ -591,6 +591,14 @@ class Sim:
                 data = st["text"].encode("utf-8")
                 full = self.full(st["p"])
                 old = t[st["p"]]
+                if st.get("same_size"):
+                    # an edit that keeps the file's size: one digit becomes another
+                    digits = [k for k, c in enumerate(old) if 48 <= c <= 57]
+                    if not digits:
+                        return "skip"
+                    k = digits[st["same_size"] % len(digits)]
+                    data = old[:k] + bytes([48 + (old[k] - 48 + 1) % 10]) + old[k + 1:]
+                    out.stats["probe_same_size_external_edit"] += 1
                 if data == old:
                     data += b"\n# touched\n"
                 # the change indicator is the (mtime, size) pair: an edit that
@@ -953,7 +961,11 @@ class CoherenceEngine(Engine):
                 new = text(p) if rng.random() < 0.4 else cur + text(p)
                 if p.endswith("__init__.py"):
                     new = text(p.rsplit("/", 2)[-2] if "/" in p else "")
-                return {"a": "e_edit", "p": p, "text": new, "mode": rng.choice(["inplace", "atomic"]), "fault": fault, "dt": dt}
+                st = {"a": "e_edit", "p": p, "text": new, "mode": rng.choice(["inplace", "atomic"]), "fault": fault, "dt": dt}
+                if rng.random() < 0.2:
+                    st["same_size"] = rng.randint(1, 50)
+                    st["dt"] = rng.choice([10_000_000, 250_000_000, 500_000_000, dt])
+                return st
             if k == "create":
                 d = rng.choice(dirs)
                 nm = newname(d, MODNAMES, ".py")
